@@ -6,6 +6,8 @@ Oracle (exact `Fraction` arithmetic on the implementation's observations, indepe
    variable borrow index) within 1e-18 — the shadow ledger is kept by the harness from the *accepted* calls only;
  * exact moves: an accepted supply / withdraw / borrow / repay (cash or collateral) changes the wallet by exactly the
    stated amount (or to 0 within Asset.sub's 1e-5 dust) and the position by the stated amount within 1e-18;
+   a position is never credited with more than the wallet paid — which Asset.sub's tolerance breaks for amounts up to 1e-5 above the
+   balance (known finding `move:*:overdraft-dust`, generated deterministically by `overdraft_dust`);
  * split / merge: op(a+b) versus op(a); op(b) on two copies of the same state end with positions within 1e-18;
  * a fully repaid debt / fully withdrawn supply (amount=None, or the exact balance) disappears.
 Correspondence: every step is replayed on the model from the implementation's dumped state.
@@ -20,12 +22,15 @@ import aave_lib as A
 from common import Ctx, driver_json, fmt
 
 PROPERTY = "C10"
-LEAN_MODULES = ["Proofs.C10", "Proofs.C10.Accrual", "Proofs.C10.Debt", "Proofs.C10.Split", "Proofs.C10.Robust"]
+LEAN_MODULES = ["Proofs.C10", "Proofs.C10.Accrual", "Proofs.C10.Debt", "Proofs.C10.Split", "Proofs.C10.Robust",
+                "Proofs.C10.Bars", "Proofs.C10.Pinned", "Proofs.C10.Overdraft", "Proofs.C10.Interleaved", "Proofs.C10.BarsRobust",
+                "Proofs.C10.InterleavedDust"]
 DRIVERS = ["driver_aave"]
 RULE = ("index paths: 1-120 bars, 27-digit indices growing by 0-3 % per bar (or exactly representable ones), 2-4 tokens; operations: supply / "
         "withdraw / borrow / repay(cash|collateral) with amounts that are fractions of the balance, the exact balance, None, and split pairs "
         "(a, b) versus (a+b); quiet bars (parts of the row, or everything but one price, repeat the previous bar), the same token supplied and borrowed, "
-        "three or four borrows of one token inside one bar with cached views read in between; bucket = (check, operation, model outcome, argument class, number of bars since the position was opened)")
+        "three or four borrows of one token inside one bar with cached views read in between; update() inside the ledgered sequences whenever the health factor is not in (0, 1), "
+        "half of the bar changes preceded by the end-of-bar update() as in a real run; amounts 5e-6 above the wallet balance (Asset.sub's tolerance); bucket = (check, operation, model outcome, argument class, number of bars since the position was opened)")
 TRUSTED = ["theorems are for exact rational arithmetic; the envelope (balances <= 1e12 tokens, <= 1e4 operations) keeps the accumulated "
            "35-digit rounding below 1e-18, which this run measures on every step (exact_vs_impl_max_rel_dev)"]
 ASSUMPTIONS = ["indices are positive and non-decreasing; balances stay below 1e12 tokens",
@@ -113,6 +118,9 @@ def check_move(ctx: Ctx, m, b, env, op, outcome, before, case):
             ctx.violate(key + ":wallet", f"{op}: wallet moved by {float(w1 - w0)!r} instead of {-float(amt)!r}", case)
         if abs((s1 - s0) - amt) > TOL * max(1, abs(s1) / 10 ** 12):
             ctx.violate(key + ":position", f"{op}: supply moved by {float(s1 - s0)!r} instead of {float(amt)!r}", case)
+        # the position must not be credited with more than the wallet paid (Asset.sub forgives an overdraft of up to 1e-5 of the balance)
+        if (s1 - s0) - (w0 - w1) > TOL * max(1, abs(s1) / 10 ** 12):
+            ctx.violate(key + ":overdraft-dust", f"{op}: the supply was credited with {float(s1 - s0)!r} but the wallet held and paid only {float(w0 - w1)!r}", case)
     elif k == "withdraw":
         a = s0 if amt is None else amt
         if not wallet_ok(a) and abs((w1 - w0) - a) > TOL:
@@ -146,6 +154,9 @@ def check_move(ctx: Ctx, m, b, env, op, outcome, before, case):
                 ctx.violate(key + ":wallet", f"{op}: wallet moved by {float(w1 - w0)!r} instead of {-float(a)!r}", case)
             if abs(paid - a) > TOL * max(1, abs(d0) / 10 ** 12) + MIN_TOKEN * vi:
                 ctx.violate(key + ":position", f"{op}: debt moved by {float(paid)!r} instead of {float(a)!r}", case)
+            # the debt must not go down by more than the wallet paid (same tolerance of Asset.sub)
+            if paid - (w0 - w1) > TOL * max(1, abs(d0) / 10 ** 12) + MIN_TOKEN * vi:
+                ctx.violate(key + ":overdraft-dust", f"{op}: the debt went down by {float(paid)!r} but the wallet held and paid only {float(w0 - w1)!r}", case)
         if amt is None and not op.get("withColl") and A.token(t) in m._borrows:
             ctx.violate("full:repay", f"{op}: the debt was repaid in full but the entry is still there ({m._borrows[A.token(t)]})", case)
 
@@ -242,6 +253,15 @@ def split_merge(ctx: Ctx, rng, m, b, env, actions):
             ctx.violate(f"split:{kind}:wallet", f"{kind} of {total} in one call vs ({a}, {rest}): wallet[{k}] {float(x)!r} vs {float(y)!r} (was {float(z)!r})", case)
 
 
+def quiet_update(m) -> bool:
+    """update() cannot liquidate: the health factor (read on a copy, so that no cache of `m` is filled) is not in (0, 1)"""
+    try:
+        hf = A.clone_market(m, False).health_factor
+    except Exception:  # noqa: BLE001
+        return False
+    return not (0 < hf < 1)
+
+
 def run_sequence(ctx: Ctx, rng, nbars, reqs, meta, exact_env):
     env = A.gen_env(rng, exact=exact_env)
     env["pandas_status"] = rng.random() < 0.4       # the status row as a real backtest hands it over: a Series with a (token, column) MultiIndex
@@ -257,7 +277,19 @@ def run_sequence(ctx: Ctx, rng, nbars, reqs, meta, exact_env):
         env_next = None
         if pending:
             op = pending.pop(0)
+            if op["kind"] == "newBar":
+                env_next = A.next_env(rng, env)
+                borrows_in_bar = {}
+            elif op["kind"] == "update":
+                if not quiet_update(m):
+                    continue
+                ctx.count("feature:update-inside-ledger")
+                ctx.count("feature:end-of-bar-update-then-new-bar")
         elif r < 0.45:
+            if rng.random() < 0.5:
+                # as the Actuator does: update() at the end of the bar, then the next bar's set_market_status
+                pending += [{"kind": "update"}, {"kind": "newBar"}]
+                continue
             env_next = A.next_env(rng, env)
             op = {"kind": "newBar"}
             borrows_in_bar = {}
@@ -287,7 +319,11 @@ def run_sequence(ctx: Ctx, rng, nbars, reqs, meta, exact_env):
             if op["kind"] in ("update", "changeCollateral") and rng.random() < 0.5:
                 continue
             if op["kind"] == "update":
-                continue           # liquidation changes balances by other means (C12); the ledger only follows user operations
+                # the end-of-bar update() of a real run: the ledger must survive it whenever it cannot liquidate (health factor not in (0, 1):
+                # C10_*_accrues_through_bars); a liquidating update changes balances by other means (C12) and is left out
+                if not quiet_update(m):
+                    continue
+                ctx.count("feature:update-inside-ledger")
         t = op.get("tok")
         before = None
         if op["kind"] in ("supply", "withdraw", "borrow", "repay") and t in env["status"]:
@@ -340,10 +376,47 @@ def run_sequence(ctx: Ctx, rng, nbars, reqs, meta, exact_env):
         ctx.impl_traces += 1
 
 
+def overdraft_dust(ctx: Ctx, rng, reqs, meta):
+    """amounts just above what the wallet holds (inside Asset.sub's 1e-5 relative tolerance): `supply(W·(1+5e-6))` with W in the wallet, and
+    `repay(None)` of a debt X with X·(1−5e-6) in the wallet.  Both are accepted, the wallet goes to 0 and the position moves by the full amount —
+    more than was paid (C10_supply_overdraft_dust; known finding `move:supply:overdraft-dust` / `move:repay:overdraft-dust`)."""
+    for exact in (True, False):
+        env = A.gen_env(rng, exact=exact)
+        t = rng.choice(env["tokens"])
+        w = D(100) if exact else A.dec_digits(rng, 1, 1000, 6)
+        m, b, actions = A.new_market(env, [(t, w)])
+        ops = [{"kind": "supply", "tok": t, "amount": fmt((w * D("1.000005")).normalize()), "coll": False}]
+        # a collateral supply of another token worth 1e6 USD, a debt of 100 `t`, then the wallet is 5e-6 short of the debt
+        ct = next((x for x in env["tokens"] if x != t and env["risk"][x]["canColl"] and env["price"][x] > 0), None)
+        steps = [(m, b, actions, ops[0])]
+        if ct is not None and env["risk"][t]["canBorrow"] and env["price"][t] > 0:
+            m2, b2, act2 = A.new_market(env, [(ct, (D(10) ** 6 * max(env["price"][t], 1) / env["price"][ct]).quantize(D(10) ** -6)), (t, D(0))])
+            if A.apply_op(m2, {"kind": "supply", "tok": ct, "amount": fmt(b2._assets[A.token(ct)].balance), "coll": True})[0] == "ok" and \
+                    A.apply_op(m2, {"kind": "borrow", "tok": t, "amount": "100"})[0] == "ok":
+                b2.set_balance(A.token(t), D(100) * D("0.999995"))
+                steps.append((m2, b2, act2, {"kind": "repay", "tok": t, "amount": None, "withColl": False, "collTok": None}))
+        for mm, bb, acts, op in steps:
+            tt = op["tok"]
+            vi = F(env["status"][tt]["varIdx"])
+            ws0 = {k.name: F(v.base_amount) * F(env["status"][k.name]["liqIdx"]) for k, v in mm._supplies.items()}
+            before = (wallet_of(bb, tt), ws0.get(tt, F(0)), F(mm._borrows[A.token(tt)].base_amount) * vi if A.token(tt) in mm._borrows else F(0), ws0)
+            s0 = A.dump_state(mm, bb, acts, len(acts))
+            n0 = len(acts)
+            outcome, _ = A.apply_op(mm, op)
+            s1 = A.dump_state(mm, bb, acts, n0)
+            case = {"env": A.env_json(env), "state": s0, "op": op}
+            ctx.case(f"overdraft-dust:{op['kind']}:{outcome}:{'exact' if exact else 'random'}", {"op": op, "wallet": fmt(before[0])})
+            check_move(ctx, mm, bb, env, op, outcome, before, case)
+            reqs.append(A.step_request(env, s0, op))
+            meta.append((case, outcome, s1, "overdraft"))
+            ctx.impl_traces += 1
+
+
 def run(ctx: Ctx):
     rng = ctx.rng
     nseq = ctx.scale(60, 2000)
     reqs, meta = [], []
+    overdraft_dust(ctx, rng, reqs, meta)
     for i in range(nseq):
         run_sequence(ctx, rng, rng.choice((1, 3, 10, 30, 120)) if not ctx.thorough else rng.choice((1, 10, 50, 200)), reqs, meta,
                      exact_env=(i % 3 == 2))
